@@ -1681,6 +1681,14 @@ def run(facts, rep, tier):
     c05.rule_r7(facts, rep, "C01-R4d")
     rule_r11(facts, rep)
     rule_r12(facts, rep)
+    rep.rule("C01-R13", "= C04-R5b: text is stored in lines that have exactly one owner (Arena::add_line stores and returns a freshly drawn id on every exit); formatting a note after another "
+                        "note was edited would otherwise print lines that the edit blanked.")
+    from . import arena
+    arena.rule_fresh_ids(facts, rep, "C01-R13")
+    rep.rule("C01-R14", "The Markdown dialect is the one the reader has arms for: exactly the audited pulldown-cmark extensions (metadata blocks, wiki links, tables) are enabled; any other "
+                        "extension makes the parser consume characters the document model cannot hold (they are lost on formatting), a missing one turns that syntax into escaped text.")
+    from . import reader_opts
+    reader_opts.rule_reader_options(facts, rep, "C01-R14")
 
 class _Only:
     """Forwards only the instances whose key contains a marker."""
